@@ -351,3 +351,88 @@ mut('c09-all-uses-rewritten', 'C09', 'R09.8', ('config.py', "            if isin
 mut('c09-object-use-keeps-own-context', 'C09', 'R09.4', ('chain.py', "                use.context = config.context\n                use._prepare()", "                use._prepare()"))
 
 ben('ben-c09-deepcopy-local', ['C09', 'C01'], ('config.py', "        self._data.update(deepcopy(context.data))", "        own_copy = deepcopy(context.data)\n        self._data.update(own_copy)"))
+
+# ---------------------------------------------------------------------------------------------- C11
+mut('c11-prefix-reprstr-copy', 'C11', 'R11.4', ('utils/data.py', "        s = str.__new__(ReprStr, str(self))\n        s.repr = self.repr\n        return s", "        return ReprStr(str(self), self.repr)"))
+mut('c11-dict-values-not-traversed', 'C11', 'R11.1', ('utils/data.py', "            for k, v in o.items():\n                if not _traverse(v) and _is_valid(v):\n                    o[k] = fce(v)\n            return True", "            for k, v in o.items():\n                if _is_valid(v):\n                    o[k] = fce(v)\n            return True"))
+mut('c11-list-first-only', 'C11', 'R11.1', ('utils/data.py', "            for i, v in enumerate(o):\n                if not _traverse(v) and _is_valid(v):\n                    o[i] = fce(v)\n            return True", "            for i, v in enumerate(o[:1]):\n                if not _traverse(v) and _is_valid(v):\n                    o[i] = fce(v)\n            return True"))
+mut('c11-all-types', 'C11', 'R11.1', ('utils/data.py', "    search_and_apply(obj, fce=_apply, allowed_types=(str,))", "    search_and_apply(obj, fce=_apply)"))
+mut('c11-no-idempotence-guard', 'C11', 'R11.2', ('utils/data.py', "        if isinstance(string, ReprStr):\n            return string\n", ""))
+mut('c11-guard-brace-fastpath', 'C11', 'R11.2', ('utils/data.py', "        if isinstance(string, ReprStr):\n            return string\n", "        if '{' not in string:\n            return string\n"))
+mut('c11-undefined-removed', 'C11', 'R11.3', ('utils/data.py', "            if placeholder not in replacements:\n                return '{' + placeholder + '}'", "            if placeholder not in replacements:\n                return ''"))
+mut('c11-undefined-attr-none', 'C11', 'R11.3', ('utils/data.py', "        if not hasattr(replacements, placeholder):\n            return '{' + placeholder + '}'", "        if not hasattr(replacements, placeholder):\n            return placeholder"))
+mut('c11-repr-is-value', 'C11', 'R11.4', ('utils/data.py', "            return ReprStr(new_string, string)", "            return ReprStr(new_string, new_string)") )
+mut('c11-objects-before-vars', 'C11', 'R11.5', ('config.py', "        if self.global_vars is not None:\n            self.apply_global_vars(self.global_vars)\n        if create_objects:\n            self.prepare_objects()", "        if create_objects:\n            self.prepare_objects()\n        if self.global_vars is not None:\n            self.apply_global_vars(self.global_vars)"))
+mut('c11-vars-before-context', 'C11', 'R11.5', ('config.py', "        if self.context is not None:\n            self.apply_context(self.context)\n        self._validate_data()\n        if self.global_vars is not None:\n            self.apply_global_vars(self.global_vars)", "        if self.global_vars is not None:\n            self.apply_global_vars(self.global_vars)\n        if self.context is not None:\n            self.apply_context(self.context)\n        self._validate_data()"))
+mut('c11-nested-uses-no-vars', 'C11', 'R11.5', ('config.py', "            contexts.append(Context.prepare_context(filepath, sub_namespace, global_vars=global_vars))", "            contexts.append(Context.prepare_context(filepath, sub_namespace))"))
+mut('c11-greedy-pattern', 'C11', 'R11.6', ('utils/data.py', "re.subn(r'{(.*?)}', _replace, string)", "re.subn(r'{(.*)}', _replace, string)"))
+mut('c11-tuple-leaf', 'C11', 'R11.1', ('utils/data.py', "        if type(o) in [list, tuple, set]:\n            for i, v in enumerate(o):\n                if not _traverse(v) and _is_valid(v):\n                    o[i] = fce(v)\n            return True\n        if isinstance(o, dict):", "        if isinstance(o, dict):"))
+
+ben('ben-c11-pattern-class', ['C11'], ('utils/data.py', "re.subn(r'{(.*?)}', _replace, string)", "re.subn(r'{([^}]*)}', _replace, string)"))
+ben('ben-c11-guard-type', ['C11', 'C02'], ('utils/data.py', "        if isinstance(string, ReprStr):\n            return string\n", "        already_substituted = isinstance(string, ReprStr)\n        if already_substituted:\n            return string\n"))
+
+# ---------------------------------------------------------------------------------------------- C13
+mut('c13-fresh-registry-per-chain', 'C13', 'R13.1', ('chain.py', "            self.chains[config.name] = Chain(config, self._tasks, parameter_mode=self.parameter_mode)", "            self.chains[config.name] = Chain(config, dict(self._tasks), parameter_mode=self.parameter_mode)"))
+mut('c13-parameter-mode-dropped', 'C13', 'R13.1', ('chain.py', "            self.chains[config.name] = Chain(config, self._tasks, parameter_mode=self.parameter_mode)", "            self.chains[config.name] = Chain(config, self._tasks)"))
+mut('c13-empty-registry-replaced', 'C13', 'R13.2', ('chain.py', "        self._task_registry = shared_tasks if shared_tasks is not None else {}", "        self._task_registry = shared_tasks or {}"))
+mut('c13-second-pass-private', 'C13', 'R13.2', ('chain.py', "            self.tasks = self._recreate_tasks_with_parameter_config(tasks, self._task_registry)", "            self.tasks = self._recreate_tasks_with_parameter_config(tasks, {})"))
+mut('c13-key-with-context', 'C13', 'R13.3', ('chain.py', "            key = task.slugname, task.name_for_persistence", "            key = task.slugname, task.name_for_persistence, str(config.context)"))
+mut('c13-key-slug-only', 'C13', 'R13.3', ('chain.py', "            key = task.slugname, task.name_for_persistence", "            key = (task.slugname,)"))
+mut('c13-force-first-chain', 'C13', 'R13.4', ('chain.py', "        for chain in self.chains.values():\n            chain.force(tasks, **kwargs)", "        for chain in self.chains.values():\n            chain.force(tasks, **kwargs)\n            break"))
+mut('c13-force-flags-dropped', 'C13', 'R13.4', ('chain.py', "        for chain in self.chains.values():\n            chain.force(tasks, **kwargs)", "        for chain in self.chains.values():\n            chain.force(tasks)"))
+mut('c13-force-only-where-known', 'C13', 'R13.4', ('chain.py', "        for chain in self.chains.values():\n            chain.force(tasks, **kwargs)", "        for chain in self.chains.values():\n            if tasks in chain:\n                chain.force(tasks, **kwargs)"))
+mut('c13-dedupe-chains', 'C13', 'R13.1', ('chain.py', "            self.chains[config.name] = Chain(config, self._tasks, parameter_mode=self.parameter_mode)", "            same = [c for c in self.chains.values() if c._base_config.data == config.data]\n            self.chains[config.name] = same[0] if same else Chain(config, self._tasks, parameter_mode=self.parameter_mode)"))
+mut('c13-registry-reset-in-prepare', 'C13', 'R13.1', ('chain.py', "    def _prepare(self):\n        for config in self._base_configs:\n            assert config.name not in self.chains", "    def _prepare(self):\n        for config in self._base_configs:\n            self._tasks = {}\n            assert config.name not in self.chains"))
+
+ben('ben-c13-registry-none-flip', ['C13', 'C01'], ('chain.py', "        self._task_registry = shared_tasks if shared_tasks is not None else {}", "        self._task_registry = {} if shared_tasks is None else shared_tasks"))
+
+# ---------------------------------------------------------------------------------------------- C16
+mut('c16-offset-off-by-one', 'C16', 'R16.1', ('cache.py', "                    if i - 1 < len(args):\n                        kwargs[arg] = args[i - 1]", "                    if i < len(args):\n                        kwargs[arg] = args[i - 1]"))
+mut('c16-self-not-skipped', 'C16', 'R16.1', ('cache.py', "                    if i == 0:\n                        # skip self\n                        continue\n", ""))
+mut('c16-default-overwrites', 'C16', 'R16.1', ('cache.py', "                    if parameter.default != Parameter.empty and arg not in kwargs:", "                    if parameter.default != Parameter.empty:"))
+mut('c16-defaults-not-filled', 'C16', 'R16.1', ('cache.py', "                    if parameter.default != Parameter.empty and arg not in kwargs:\n                        kwargs[arg] = parameter.default\n", ""))
+mut('c16-args-not-cleared', 'C16', 'R16.1', ('cache.py', "                args = []\n                key_kwargs", "                key_kwargs"))
+mut('c16-key-unsorted', 'C16', 'R16.2', ('cache.py', "cache_key = orig_json.dumps(key_kwargs, sort_keys=True)", "cache_key = orig_json.dumps(key_kwargs)"))
+mut('c16-top-level-sorted-only', 'C16', 'R16.2', ('cache.py', "                key_kwargs = {k: v for k, v in kwargs.items() if k not in self.ignore_params}\n                # we use json module from standard library to ensure backward\n                # compatibility\n                cache_key = orig_json.dumps(key_kwargs, sort_keys=True)",
+                                                   "                key_kwargs = {k: kwargs[k] for k in sorted(kwargs) if k not in self.ignore_params}\n                cache_key = orig_json.dumps(key_kwargs)"))
+mut('c16-ignore-params-unused', 'C16', 'R16.2', ('cache.py', "key_kwargs = {k: v for k, v in kwargs.items() if k not in self.ignore_params}", "key_kwargs = dict(kwargs)"))
+mut('c16-version-ignored', 'C16', 'R16.3', ('cache.py', "                if self.version is not None:\n                    subcache_name = f'{subcache_name}.{self.version}'\n", ""))
+mut('c16-subcache-by-class', 'C16', 'R16.3', ('cache.py', "                subcache_name = method.__name__\n", "                subcache_name = type(obj).__name__\n"))
+mut('c16-only-cache-computes', 'C16', 'R16.4', ('cache.py', "            if only_cache:\n                return cache.get(cache_key)\n", "            if only_cache and store_cache_value is not NO_VALUE:\n                return cache.get(cache_key)\n"))
+mut('c16-force-not-forwarded', 'C16', 'R16.4', ('cache.py', "return cache.get_or_compute(cache_key, computer, force=force_cache)", "return cache.get_or_compute(cache_key, computer)"))
+mut('c16-store-calls-method', 'C16', 'R16.4', ('cache.py', "                computer = lambda: store_cache_value  # noqa: E731", "                computer = lambda: method(obj, *args, **kwargs) or store_cache_value  # noqa: E731"))
+mut('c16-none-is-missing', 'C16', 'R16.5', ('cache.py', "        if key not in self._memory[get_ident()] or force:\n            self._memory[get_ident()][key] = computer()\n        return self._memory[get_ident()][key]", "        value = None if force else self._memory[get_ident()].get(key)\n        if value is None:\n            value = self._memory[get_ident()][key] = computer()\n        return value"))
+
+ben('ben-c16-skip-lt', ['C16'], ('cache.py', "                    if i == 0:\n                        # skip self\n                        continue\n", "                    if i < 1:\n                        continue\n"))
+
+# ---------------------------------------------------------------------------------------------- C17
+mut('c17-iter-no-sort', 'C17', 'R17.1', ('utils/iter.py', "    return [res for _, res in sorted(result, key=lambda ires: ires[0])]", "    return [res for _, res in result]"))
+mut('c17-threading-never-sorted', 'C17', 'R17.1', ('utils/threading.py', "        for _, res in sorted(chunk_result, key=lambda ires: ires[0]) if sort else chunk_result:", "        for _, res in chunk_result:"))
+mut('c17-sort-by-value', 'C17', 'R17.1', ('utils/iter.py', "sorted(result, key=lambda ires: ires[0])", "sorted(result, key=lambda ires: ires[1])"))
+mut('c17-sort-hoisted', 'C17', 'R17.1', ('utils/threading.py', "        chunk_result = loop.run_until_complete(_run(chunk))\n        for _, res in sorted(chunk_result, key=lambda ires: ires[0]) if sort else chunk_result:\n            result.append(res)\n    return result",
+                                         "        chunk_result = loop.run_until_complete(_run(chunk))\n        result.extend(chunk_result)\n    ordered = sorted(result, key=lambda ires: ires[0]) if sort else result\n    return [res for _, res in ordered]"))
+mut('c17-insert-by-index', 'C17', 'R17.1', ('utils/iter.py', "    return [res for _, res in sorted(result, key=lambda ires: ires[0])]", "    out = []\n    for i, res in result:\n        out.insert(i, res)\n    return out"))
+mut('c17-fun-called-twice', 'C17', 'R17.2', ('utils/iter.py', "    def _fun(i, arg):\n        return i, fun(arg)", "    def _fun(i, arg):\n        fun(arg)\n        return i, fun(arg)"))
+mut('c17-swallow-exception', 'C17', 'R17.2', ('utils/threading.py', "    def _fun(i, arg):\n        return i, fun(arg)", "    def _fun(i, arg):\n        try:\n            return i, fun(arg)\n        except Exception:\n            return i, None"))
+mut('c17-skip-falsy', 'C17', 'R17.2', ('utils/iter.py', "for i, input_value in enumerate(iterable)]\n            return [", "for i, input_value in enumerate(iterable) if input_value is not None]\n            return ["))
+mut('c17-sequential-drops-last', 'C17', 'R17.2', ('utils/iter.py', "        return [fun(i) for i in iterable]", "        return [fun(i) for i in list(iterable)[:-1]] + [fun(list(iterable)[-1])] if total else []"))
+mut('c17-chunk-off-by-one', 'C17', 'R17.3', ('utils/iter.py', "        if result_size == chunksize:", "        if result_size > chunksize:"))
+mut('c17-chunk-buffer-reuse', 'C17', 'R17.3', ('utils/iter.py', "            yield result\n            result = []\n            result_size = 0", "            yield result\n            result.clear()\n            result_size = 0"))
+mut('c17-chunk-empty-tail', 'C17', 'R17.3', ('utils/iter.py', "    if result_size > 0:\n        yield result", "    yield result"))
+mut('c17-chunk-counter-not-reset', 'C17', 'R17.3', ('utils/iter.py', "            result = []\n            result_size = 0", "            result = []"))
+
+ben('ben-c17-sorted-local', ['C17'], ('utils/iter.py', "    return [res for _, res in sorted(result, key=lambda ires: ires[0])]", "    ordered = sorted(result, key=lambda pair: pair[0])\n    return [res for _, res in ordered]"))
+
+# ---------------------------------------------------------------------------------------------- C19
+mut('c19-no-dependency-check', 'C19', 'R19.1', ('utils/testing.py', "        self.tasks = self._create_tasks()\n        self._process_dependencies(self.tasks)\n\n        self._build_graph()", "        self.tasks = self._create_tasks()\n        try:\n            self._process_dependencies(self.tasks)\n        except ValueError:\n            pass\n\n        self._build_graph()"))
+mut('c19-stages-reordered', 'C19', 'R19.1', ('utils/testing.py', "        self._process_dependencies(self.tasks)\n\n        self._build_graph()\n        self._init_objects()", "        self._init_objects()\n        self._process_dependencies(self.tasks)\n\n        self._build_graph()"))
+mut('c19-mock-persisted', 'C19', 'R19.2', ('utils/testing.py', "        data_type = Any\n        data_class = InMemoryData", "        data_type = Any\n        data_class = JSONData"),
+    ('utils/testing.py', "from taskchain import Chain, Config, Task, InMemoryData", "from taskchain import Chain, Config, Task, InMemoryData, JSONData"))
+mut('c19-mock-value-copy', 'C19', 'R19.2', ('utils/testing.py', "    def value(self) -> Any:\n        return self._value", "    def value(self) -> Any:\n        return self.data.value"))
+mut('c19-real-task-other-config', 'C19', 'R19.2', ('utils/testing.py', "            task = self._create_task(task_class, self.config)", "            task = self._create_task(task_class, Config(self.config.base_dir, name='test', data={}))"))
+mut('c19-none-params-dropped', 'C19', 'R19.3', ('utils/testing.py', "        if parameters is None:\n            parameters = {}\n", "        if parameters is None:\n            parameters = {}\n        parameters = {k: v for k, v in parameters.items() if v is not None}\n"))
+mut('c19-create-test-task-no-mocks', 'C19', 'R19.4', ('utils/testing.py', "test_chain = TestChain([task], parameters=parameters, mock_tasks=input_tasks, base_dir=base_dir)", "test_chain = TestChain([task], parameters=parameters, base_dir=base_dir)"))
+mut('c19-pattern-by-slugname', 'C19', 'R19.5', ('chain.py', "                    if re.fullmatch(input_task.lstrip('~'), task_name.split('::')[-1]) and namespace_check:", "                    if re.fullmatch(input_task.lstrip('~'), tasks[task_name].slugname) and namespace_check:"))
+mut('c19-run-args-config-fallback', 'C19', 'R19.6', ('task.py', "            parameter_arg = self.parameters[arg] if arg in self.parameters else NO_VALUE\n", "            parameter_arg = self.parameters[arg] if arg in self.parameters else NO_VALUE\n            if parameter_arg is NO_VALUE and input_tasks_arg is NO_VALUE and self._config is not None and arg in self._config:\n                parameter_arg = self._config[arg]\n                args.append(parameter_arg)\n                continue\n"))
+
+ben('ben-c19-default-dict', ['C19'], ('utils/testing.py', "        if parameters is None:\n            parameters = {}\n", "        if parameters is None:\n            parameters = {}\n        assert isinstance(parameters, dict)\n"))
